@@ -79,7 +79,7 @@ fn consume_metadata(r: &ScalableRecipe, conv: &cooklang::Converter) {
     }
 }
 
-fn consume_scaled(mut s: ScaledRecipe, conv: &cooklang::Converter, aisle_conf: &aisle::AisleConf) {
+pub fn consume_scaled(mut s: ScaledRecipe, conv: &cooklang::Converter, aisle_conf: &aisle::AisleConf) {
     let _ = serde_json::to_string(&s).map(|x| x.len());
     let _ = s.scaled_data().map(|d| (d.ingredients.len(), d.target.factor()));
     let _ = s.is_default_scaled();
